@@ -434,7 +434,9 @@ def deletionOrArchival (cfg : Cfg) (rm : Remotes) (s : Sys) (mem : OSet) : Sys Ã
     if mem.lifecycle â‰  .archived then (s, .ok)
     else afterStatus (s.updateStatus mem) .ok
   | .done =>
-    let s := { s with freed := s.freed ++ [mem.name] }
+    -- `FreeCacheAndRemoveFinalizer`: `dynamicCache.Free(objectSet)` drops the registrations of this
+    -- ObjectSet with the process's dynamic cache, then the finalizer is removed
+    let s := { s with w := s.w.free mem.owner.wref, freed := s.freed ++ [mem.name] }
     match s.setFinalizer mem false with
     | (s, .error _) => (s, .err)
     | (s, .ok mem) =>
